@@ -9,8 +9,11 @@ Bytes travel as two hexadecimal digits per byte, `-` for the empty string.
   crashat <old> <new> <i,i,…>   -> the crash states of `saveOps` at these indexes, in full
   adigest / acrashat            -> the same for `saveOpsAtomic`
   toyload <bytes>               -> the toy loader
+  bdigest <old|missing> <op>…   -> every crash state of that operation sequence under BUFFERED writes (`crashStatesB`:
+                                   any prefix of every handle's unflushed text on disk), as digests; ops in `showOp` notation
 -/
 import AioMySensors.Model.FileOps
+import AioMySensors.Model.FileOpsBuffered
 
 open AioMySensors.FileOps
 
@@ -70,8 +73,28 @@ def showLoad : LoadResult Nat → String
 def states (atomic : Bool) (old new : Bytes) : List Fs :=
   crashStates (Fs.init old) (if atomic then saveOpsAtomic new else saveOps new)
 
+def parsePath : String → Option Path
+  | "live" => some .live
+  | "tmp" => some .tmp
+  | _ => none
+
+def parseOp (tok : String) : Option FsOp :=
+  match tok.splitOn ":" with
+  | ["openTrunc", p] => (parsePath p).map .openTrunc
+  | ["write", p, d] => do let p ← parsePath p; let d ← decodeBytes d; pure (.write p d)
+  | ["close", p] => (parsePath p).map .close
+  | ["rename", a, b] => do let a ← parsePath a; let b ← parsePath b; pure (.rename a b)
+  | _ => none
+
+def bufferedDigests (old : String) (ops : List String) : String :=
+  let init : Option BFs := if old = "missing" then some { disk := { live := none } } else (decodeBytes old).map BFs.init
+  match init, ops.mapM parseOp with
+  | some b, some ops => " ".intercalate ((crashStatesB b ops).map digestFs).eraseDups
+  | _, _ => "bad-op"
+
 def step (line : String) : String :=
   match (line.trimAscii.toString.splitOn " ").filter (· ≠ "") with
+  | "bdigest" :: o :: ops => bufferedDigests o ops
   | ["ops", n] => match decodeBytes n with
     | some n => showOps (saveOps n)
     | none => "bad-op"
